@@ -231,10 +231,19 @@ def run(prog, ctx):
         ifs = [i for i in walk_no_nested(f) if isinstance(i, ast.If)]
         li = [i for i in ifs if ltest in src(i.test) and rtest not in src(i.test)]
         ri = [i for i in ifs if rtest in src(i.test) and ltest not in src(i.test)]
-        if len(li) != 1 or len(ri) != 1:
+        lbody = li[0].body if len(li) == 1 else None
+        rbody = ri[0].body if len(ri) == 1 else None
+        # merged form: `if type in (L, R) and flag: if type == L: A else: B`
+        both = [i for i in ifs if ltest in src(i.test) and rtest in src(i.test)]
+        if lbody is not None and rbody is None and li[0].orelse and any(li[0] in b.body for b in both):
+            rbody = li[0].orelse
+        if rbody is not None and lbody is None and ri[0].orelse and any(ri[0] in b.body for b in both):
+            lbody = ri[0].orelse
+        if lbody is None or rbody is None:
             raise AnalysisError("X1 branch pair %s: branches testing %s / %s not found (%d, %d)" % (fq, ltest, rtest, len(li), len(ri)))
+        ri = ri or li
         try:
-            only_l, only_r, nl, nr = reflect.compare_blocks(li[0].body, ri[0].body, f, _roles(**dict(rkw)))
+            only_l, only_r, nl, nr = reflect.compare_blocks(lbody, rbody, f, _roles(**dict(rkw)))
         except reflect.Unsupported as e:
             unarmed.append("%s [%s]: %s" % (fq, ltest.split(".")[-1], e))
             continue
